@@ -17,6 +17,7 @@ package main
 
 import (
 	"encoding/json"
+	"flag"
 	"fmt"
 	"os"
 	"strconv"
@@ -24,6 +25,8 @@ import (
 	"sync"
 	"time"
 
+	pb "github.com/NethermindEth/juno/consensus/propeller/proto"
+	"google.golang.org/protobuf/proto"
 	"verif/harness/lib"
 )
 
@@ -54,6 +57,7 @@ type hctx struct {
 	dmu sync.Mutex
 	tt  *termTable
 	cfg cfgFlags
+	pcfg pcfgFlags
 	// driverBroken is set after the first driver failure: the sections keep running their
 	// oracles on the real code, without correspondence.
 	driverBroken bool
@@ -169,7 +173,12 @@ func (h *hctx) violate(sig, what string, replay map[string]any) {
 }
 
 func main() {
+	child := flag.String("c19-child", "", "internal: run one processor scenario (file) on the real Processor")
 	f := lib.ParseFlags()
+	if *child != "" {
+		procChild(*child)
+		return
+	}
 	res := lib.NewResult("case = one call sequence on the real propeller code (pad/unpad of a byte string, Merkle tree + " +
 		"tampered proof, shard subset reconstruction, validator verdict on an honest or corrupted unit); non-trivial = " +
 		"non-empty message or byte string / at least 2 shards / a unit that passes the origin check or is corrupted in exactly one field")
@@ -184,6 +193,9 @@ func main() {
 	}
 	h.cfg = probeVariant(h)
 	res.Note("code variant probed on the real code (model driven with the same flags): %+v", h.cfg)
+	h.pcfg.WireGuard = probeWire()
+	h.pcfg.ProcWired, h.pcfg.NoPoison, h.pcfg.LocalFromPresent = probeProcessor(h)
+	res.Note("wire/processor variant probed: %s", h.pcfg.describe())
 
 	if f.Replay != "" {
 		runReplay(h, f.Replay)
@@ -196,7 +208,8 @@ func main() {
 	for i, sec := range []struct {
 		name string
 		run  func(*hctx, *lib.RNG)
-	}{{"padding", secPadding}, {"merkle", secMerkle}, {"rs", secRS}, {"e2e", secE2E}, {"sched", secSched}, {"validator", secValidator}} {
+	}{{"padding", secPadding}, {"merkle", secMerkle}, {"rs", secRS}, {"e2e", secE2E}, {"sched", secSched}, {"validator", secValidator},
+		{"wire", secWire}, {"processor", secProcessor}} {
 		t0 := time.Now()
 		sec.run(h, r.Fork(uint64(i+1)))
 		h.flush()
@@ -234,6 +247,22 @@ func runReplay(h *hctx, path string) {
 	case "pad":
 		b, _ := unhx(str(rp["msg"]))
 		padCase(h, b, num(rp["k"]))
+	case "wire":
+		b, _ := unhx(str(rp["proto"]))
+		var pu pb.PropellerUnit
+		if err := proto.Unmarshal(b, &pu); err != nil {
+			h.res.Note("replay: %v", err)
+			return
+		}
+		wireCase(h, &pu, str(rp["what"]))
+	case "processor":
+		b, _ := json.Marshal(rp["scenario"])
+		var sc procScenario
+		if err := json.Unmarshal(b, &sc); err != nil {
+			h.res.Note("replay: %v", err)
+			return
+		}
+		procCase(h, &sc)
 	case "marshal":
 		sh, _ := parseHexList(str(rp["shards"]))
 		marshalCase(h, sh)
